@@ -41,6 +41,8 @@ def strategy(tier):
             if draw(st.floats(0, 1)) < 0.3:
                 t['tpost'] = draw(st.sampled_from(DS))
             if draw(st.floats(0, 1)) < 0.2:
+                t['tinv'] = draw(st.sampled_from(DS))
+            if draw(st.floats(0, 1)) < 0.2:
                 t['extra'] = ['tick(%r)' % draw(st.sampled_from([0.25, 1]))]
         for s in spec['states']:
             if draw(st.floats(0, 1)) < 0.3:
@@ -69,6 +71,10 @@ def render(spec):
             d = t['tpost']
             t['post'] = ["(glog.append(('tp', %d, %r, after(%r), None, time)) or True)"
                          % (t['id'], d, d)]
+        if t.get('tinv') is not None:
+            d = t['tinv']
+            t['inv'] = ["(glog.append(('ti', %d, %r, after(%r), None, time)) or True)"
+                        % (t['id'], d, d)]
     for s in spec['states']:
         if s.get('sinv') is not None and s['kind'] not in ('shallow', 'deep'):
             d = s['sinv']
@@ -152,7 +158,7 @@ def oracle(case):
             last_T = T
             # guard probes (start of step)
             for g in rec['glog']:
-                if g[0] in ('tp', 'si'):
+                if g[0] in ('tp', 'si', 'ti'):
                     continue
                 t = by_tid[g[0]]
                 s = t['source']
@@ -205,6 +211,15 @@ def oracle(case):
                 for m in rec['result']['micro']:
                     if m['has_t']:
                         t = by_tid[m['t']]
+                        if t.get('tinv') is not None:
+                            # transition invariants: evaluated before and after the action
+                            mine = [g for g in rec['glog'] if g[0] == 'ti' and g[1] == t['id']]
+                            want = (T - entered_at[t['source']]) >= t['tinv']
+                            if len(mine) != 2 or any(g[3] != want or g[5] != T for g in mine):
+                                bad('after-wrong', i, where='transition invariant', tid=t['id'],
+                                    d=t['tinv'], evaluations=[list(g) for g in mine], now=T,
+                                    entered_at=entered_at[t['source']], expected=want)
+                                break
                         if t.get('tpost') is not None:
                             if not tp:
                                 bad('transition-postcondition-not-evaluated', i, tid=t['id'])
